@@ -269,6 +269,118 @@ fn decoding_case(rep: &mut Report, rng: &mut Rng) {
     }
 }
 
+/// "only file-transfer data packages (when so configured) may be dropped": a FileTransfer plugin with random
+/// apid / ctid restriction and keepFLDA on/off processes data packages, announcements, end markers and near misses from
+/// the configured and from other applications. Specification of the dropped set: keepFLDA off, application matches the
+/// configured ids, verbose log info, 5 arguments, first and last argument the ASCII string "FLDA".
+fn file_transfer_drop_case(rep: &mut Report, rng: &mut Rng) {
+    let ids: [&[u8; 4]; 4] = [b"SYS\0", b"FILE", b"APP1", b"X\0\0\0"];
+    let cfg_apid: Option<&[u8; 4]> = if rng.chance(2, 3) { Some(*rng.pick(&ids)) } else { None };
+    let cfg_ctid: Option<&[u8; 4]> = if rng.chance(2, 3) { Some(*rng.pick(&ids)) } else { None };
+    let keep = rng.chance(1, 3);
+    let s4 = |b: &[u8; 4]| String::from_utf8_lossy(&b[..b.iter().position(|c| *c == 0).unwrap_or(4)]).to_string();
+    let mut cfg = json!({"name":"FileTransfer","allowSave":false,"keepFLDA":keep});
+    if let Some(a) = cfg_apid {
+        cfg["apid"] = json!(s4(a));
+    }
+    if let Some(c) = cfg_ctid {
+        cfg["ctid"] = json!(s4(c));
+    }
+    let mut eac = EacStats::new();
+    let plugin = match crate::guard::catch(|| get_plugin(cfg.as_object().unwrap(), &mut eac)) {
+        Ok(Some(p)) => p,
+        Ok(None) => {
+            rep.violation("plugin-not-created", format!("factory::get_plugin returned None for {}", cfg), json!({"cfg": cfg}));
+            return;
+        }
+        Err(pi) => {
+            rep.violation(&pi.class(), format!("plugin construction panicked at {}:{} {}", pi.file, pi.line, pi.msg), json!({"cfg": cfg}));
+            return;
+        }
+    };
+    let tag = |t: &[u8; 4]| {
+        let mut v = t.to_vec();
+        v.push(0);
+        Val::Ascii(v)
+    };
+    let n = 20 + rng.usize_below(100);
+    let mut msgs = Vec::with_capacity(n);
+    let mut expect_drop = Vec::with_capacity(n);
+    for i in 0..n {
+        let be = rng.chance(1, 4);
+        let serial = 1 + rng.below(3) as u32;
+        // shape of the message
+        let shape = rng.below(10);
+        let (vals, noar): (Vec<Val>, u8) = match shape {
+            0..=3 => (vec![tag(b"FLDA"), Val::U32(serial), Val::I32(1 + rng.below(4) as i32), Val::Raw(rng.bytes(8)), tag(b"FLDA")], 5),
+            4 => (vec![tag(b"FLST"), Val::U32(serial), Val::Str("f.bin".into()), Val::U32(32), Val::Str("d".into()), Val::U32(4), Val::U32(8), tag(b"FLST")], 8),
+            5 => (vec![tag(b"FLFI"), Val::U32(serial), tag(b"FLFI")], 3),
+            6 => (vec![tag(b"FLDA"), Val::U32(serial), Val::I32(1), Val::Raw(rng.bytes(8)), tag(b"FLDX")], 5), // last argument differs
+            7 => (vec![tag(b"FLDA"), Val::U32(serial), Val::I32(1), tag(b"FLDA")], 4),                            // 4 arguments
+            8 => (vec![Val::Str("FLDA".into()), Val::U32(serial), Val::I32(1), Val::Raw(rng.bytes(8)), Val::Str("FLDA".into())], 5), // utf8 instead of ascii
+            _ => (vec![Val::Str("ordinary".into()), Val::U32(i as u32)], 2),
+        };
+        let (p, _) = encode(&vals, be);
+        let mut m = mk_verbose_msg(p, noar, be);
+        let apid = *rng.pick(&ids);
+        let ctid = *rng.pick(&ids);
+        let mut vmm: u8 = 0x41; // verbose log info
+        match rng.below(12) {
+            0 => vmm = 0x40, // non verbose
+            1 => vmm = 0x31, // log warn
+            2 => vmm = 0x43, // app trace
+            _ => {}
+        }
+        let no_ext = rng.chance(1, 15);
+        if no_ext {
+            m.extended_header = None;
+            m.standard_header.htyp &= !1;
+        } else {
+            let e = m.extended_header.as_mut().unwrap();
+            e.apid = DltChar4::from_buf(apid);
+            e.ctid = DltChar4::from_buf(ctid);
+            e.verb_mstp_mtin = vmm;
+        }
+        m.index = i as u32;
+        m.reception_time_us = 1_600_000_000_000_000 + i as u64 * 1000;
+        m.lifecycle = 1;
+        let app_matches = !no_ext && cfg_apid.map_or(true, |a| a == apid) && cfg_ctid.map_or(true, |c| c == ctid);
+        expect_drop.push(!keep && app_matches && vmm == 0x41 && shape <= 3);
+        msgs.push(m);
+    }
+    rep.inc("evaluations");
+    rep.inc("file_transfer_drop_cases");
+    let rp = || json!({"kind":"c19-ft-drop","cfg": cfg, "messages": msgs.len()});
+    let out = match run_plugins(&msgs, vec![plugin]) {
+        Ok(o) => o,
+        Err(pi) => {
+            rep.violation(&pi.class(), format!("panic at {}:{} {}", pi.file, pi.line, pi.msg), rp());
+            return;
+        }
+    };
+    let expected: Vec<&DltMessage> = msgs.iter().zip(expect_drop.iter()).filter(|(_, d)| !**d).map(|(m, _)| m).collect();
+    let got_idx: Vec<u32> = out.iter().map(|m| m.index).collect();
+    let exp_idx: Vec<u32> = expected.iter().map(|m| m.index).collect();
+    if got_idx != exp_idx {
+        let wrongly_dropped: Vec<u32> = exp_idx.iter().filter(|i| !got_idx.contains(i)).copied().take(5).collect();
+        let wrongly_kept: Vec<u32> = got_idx.iter().filter(|i| !exp_idx.contains(i)).copied().take(5).collect();
+        let class = if !wrongly_dropped.is_empty() { "file-transfer:dropped-a-message-that-is-no-data-package-of-the-configured-application" } else { "file-transfer:data-package-not-dropped-or-order-changed" };
+        rep.violation(class, format!("config {}: wrongly dropped {:?}, wrongly kept {:?} ({} messages)", cfg, wrongly_dropped, wrongly_kept, msgs.len()), rp());
+        return;
+    }
+    for (a, b) in expected.iter().zip(out.iter()) {
+        if a.payload != b.payload || a.ecu != b.ecu || a.reception_time_us != b.reception_time_us || a.extended_header != b.extended_header || a.lifecycle != b.lifecycle {
+            rep.violation("file-transfer:altered", format!("message {} changed by the FileTransfer plugin", a.index), rp());
+            return;
+        }
+    }
+    rep.add("file_transfer_messages_dropped_as_specified", expect_drop.iter().filter(|d| **d).count() as u64);
+    if expect_drop.iter().any(|d| *d) && expect_drop.iter().any(|d| !*d) {
+        rep.inc("nontrivial");
+        rep.sig(fnv(&[0xf7, cfg_apid.is_some() as u8, cfg_ctid.is_some() as u8, keep as u8, (expect_drop.iter().filter(|d| **d).count().min(15)) as u8]));
+    }
+}
+
 fn anon_case(rep: &mut Report, rng: &mut Rng, i: u64) {
     let hostile = rng.chance(1, 3);
     let s = gen_scenario(rng, hostile, 120);
@@ -424,6 +536,8 @@ pub fn run(p: &Params) -> Report {
         i += 1;
         if i % 3 == 0 {
             anon_case(&mut rep, &mut rng, i);
+        } else if i % 6 == 1 {
+            file_transfer_drop_case(&mut rep, &mut rng);
         } else {
             decoding_case(&mut rep, &mut rng);
         }
